@@ -127,7 +127,7 @@ def run(res):
     exe = build.fastpasta("rel")
     build.harness()
     wd = scratch("c19")
-    n = 220 if res.tier == "quick" else 4000
+    n = 220 if res.tier == "quick" else 16000
     for o in pmap(one_case, [(exe, wd, res.seed, c, res.tier) for c in range(n)]):
         res.evaluations += 1
         res.count("rows_compared", o["events"])
